@@ -150,7 +150,19 @@ func stressOne(seed int64, dur time.Duration, nReaders int) string {
 			defer wg.Done()
 			for atomic.LoadInt32(&stop) == 0 {
 				guard("reader", func() {
-					switch rr.Intn(12) {
+					switch rr.Intn(13) {
+					case 12:
+						// CopyTo of the LIVE store from a reader goroutine.  No property promises that this
+						// copy is one version (CopyTo takes MinItem under one pin and visits from that key
+						// under a later one; C05's single-version list does not include it, C11 is about
+						// sequential histories) - so only "no panic, no hang, no error" is required here;
+						// a consistent copy under concurrency is obtained from a Snapshot
+						dst, err := st.CopyTo(memfile.New(), []int{0, 1, 3, 100}[rr.Intn(4)])
+						if err != nil {
+							fail("bad:copyto " + errClass(err))
+							return
+						}
+						dst.Close()
 					case 11:
 						// C05 names Snapshot among the read-only calls: what a snapshot taken while the
 						// mutator runs shows must be ONE version from the window of the Snapshot() call,
